@@ -4,6 +4,7 @@ import (
 	"fmt"
 	"go/ast"
 	"go/constant"
+	"go/token"
 	"go/types"
 	"sort"
 	"strings"
@@ -16,12 +17,13 @@ func init() {
 		ID: "C19",
 		Explanation: "Decided statically: (R19a) every write of a CARv2 header in the repository (library and CLI) goes either to an offset writer positioned at the pragma size or " +
 			"to a stream to which carv2.Pragma was written before on every path; (R19b) a file handle that was handed to an API as io.ReaderAt (which does not advance it) is " +
-			"not afterwards consumed with Read on the assumption that it was advanced; (R19c) `car filter` puts a block exactly on the true outcome of matchFilter(blk.Cid(), " +
-			"cidMap, invert), matchFilter answers !invert for present and invert for absent keys, roots go through the same predicate, and the scan ends only on io.EOF; " +
+			"not afterwards consumed with Read on the assumption that it was advanced; (R19c) `car filter` puts a block exactly on the true outcome of a condition whose truth table over (blk.Cid() is in cidMap, invert) " +
+			"is `present != invert` (evaluated over go/ssa values wherever the predicate is written: matchFilter, a method, inline), roots go through the same predicate, and the scan ends only on io.EOF; " +
 			"(R19d) `car index` re-emits with offsets that start at reader position minus buffered bytes and advance by U(len)+len, records the offset held before the " +
 			"section is read, builds the output header with NewHeader(payload size) (only IndexOffset may be zeroed), get-block writes blk.RawData(), detach-index copies " +
 			"IndexReader(), `--version 1` copies DataReader(); (R19e) get-dag visits links once only when no custom selector is set. Two clauses are VIOLATED on the pinned " +
 			"tree and recorded as known findings (D12a concat --version 2 writes a header without pragma; D12b inspect --full reads a handle ReadAt never advanced). " +
+			"Further rules (R19f-R19q, listed under coverage.rules with what each requires) cover the other subcommands: output truncation, flag lineage, parser limits, list/concat/create/verify/filter clauses. " +
 			"NOT decided: acceptance by inspect/verify over all inputs and flags, equality with library results.",
 		Assumptions: []string{"bufio.Reader.Buffered() is the number of bytes read ahead of the consumer"},
 		Rules: []RuleDef{
@@ -38,6 +40,9 @@ func init() {
 			{ID: "R19n", Floor: 1, Doc: "car verify accepts what the library's index means: an index entry is looked up by multihash, so verify never rejects an entry because the section's whole CID differs from the key (no Cid.Equals in VerifyCar)", Run: ruleR19n},
 			{ID: "R19g", Floor: 1, Doc: "car verify applies its index-placement check only to archives whose header claims an index", Run: ruleR19g},
 			{ID: "R19e", Floor: 2, Doc: "get-dag: link-visit-once derives from !IsSet(selector)", Run: ruleR19e},
+			{ID: "R19o", Floor: 1, Doc: "car list prints every section of the scan: from a successful Next, the next Next is not reachable without a print to the output", Run: ruleR19o},
+			{ID: "R19p", Floor: 1, Doc: "car concat copies the whole payload of every input: io.Copy to the end of the payload reader (or CopyN of a length taken from the header / file size), never a length found by inspecting the bytes — trailing zero bytes can be block data", Run: ruleR19p},
+			{ID: "R19q", Floor: 1, Doc: "car create writes a new archive: the roots it opens its destination with are the placeholder it computed, never something read back from a file — a destination left by another run must be refused (mismatching header), not resumed with its old blocks in the output", Run: ruleR19q},
 		},
 	})
 }
@@ -249,52 +254,6 @@ func filterParams(fn *ssa.Function) (cidIdx, setIdx, invIdx int) {
 }
 
 func ruleR19c(c *Ctx, r *Report) {
-	mf, err := c.Func(pkgCmdLib, "", "matchFilter")
-	if err != nil {
-		r.InfraFail("%v", err)
-		return
-	}
-	mCid, mSet, mInv := filterParams(mf)
-	// matchFilter: present -> !invert, absent -> invert
-	{
-		key := "filter-polarity@" + fnKey(mf)
-		bad := ""
-		if mCid < 0 || mSet < 0 || mInv < 0 {
-			bad = "signature changed: no (cid.Cid, set, invert bool) parameters found"
-		} else {
-			inv := mf.Params[mInv]
-			present := condEdges(mf, func(base ssa.Value) (bool, bool) {
-				if ex, ok := base.(*ssa.Extract); ok && ex.Index == 1 {
-					if lk, ok := ex.Tuple.(*ssa.Lookup); ok && lk.CommaOk {
-						return true, true
-					}
-				}
-				return false, false
-			})
-			if len(present) != 1 {
-				bad = "no comma-ok map lookup deciding the answer"
-			} else {
-				for _, ret := range returnsOf(mf) {
-					v := ret.Results[0]
-					base, neg := condNorm(v)
-					isInv := canon(base) == ssa.Value(inv)
-					onPresent := reachFromEdge(mf, present[0], nil)[ret.Block()]
-					onAbsent := reachFromEdge(mf, opposite(present[0]), nil)[ret.Block()]
-					switch {
-					case !isInv:
-						bad = "a return of matchFilter is not invert / !invert"
-					case onPresent && !onAbsent && !neg:
-						bad = "matchFilter answers `invert` for a CID that IS in the set: the selection is inverted"
-					case onAbsent && !onPresent && neg:
-						bad = "matchFilter answers `!invert` for a CID that is NOT in the set: the selection is inverted"
-					case onPresent && onAbsent:
-						bad = "a return of matchFilter is shared by the present and absent outcomes"
-					}
-				}
-			}
-		}
-		r.Check(bad == "", key, c.Pos(mf.Pos()), "present -> !invert, absent -> invert", bad)
-	}
 	fn, err := c.Func(pkgCmdLib, "", "FilterCar")
 	if err != nil {
 		r.InfraFail("%v", err)
@@ -305,33 +264,69 @@ func ruleR19c(c *Ctx, r *Report) {
 	fins := callsIn(fn, func(f *types.Func, cc *ssa.CallCommon) bool { return f != nil && f.Name() == "Finalize" })
 	{
 		key := "filter-gate@" + fnKey(fn)
-		bad := ""
+		pkey := "filter-polarity@" + fnKey(fn)
+		bad, pbad := "", ""
 		_, fSet, fInv := filterParams(fn)
-		if len(puts) != 1 || len(nexts) != 1 || fSet < 0 || fInv < 0 || mCid < 0 || mSet < 0 || mInv < 0 {
+		if len(puts) != 1 || len(nexts) != 1 || fSet < 0 || fInv < 0 {
 			bad = "expected one Put and one BlockReader.Next in FilterCar, and set/invert parameters"
+			pbad = bad
 		} else {
 			blk := extractOf(nexts[0].Value(), 0)
-			okc := 0
-			gate := condEdges(fn, matchCallCond(pkgCmdLib, "", "matchFilter", true, func(cl *ssa.Call) bool {
-				// matchFilter(blk.Cid(), cidMap, invert)
-				cc, _ := callOf(canon(cl.Call.Args[mCid]))
-				if cc == nil || calleeFunc(cc.Common()) == nil || calleeFunc(cc.Common()).Name() != "Cid" {
-					return false
+			// the predicate, wherever it is computed (matchFilter, a method of a filter struct, inline):
+			// a condition that is a function of "blk.Cid() is in cidMap" (P) and invert (I) alone
+			sem := &boolSem{
+				isI: func(v ssa.Value) bool { return canon(v) == ssa.Value(fn.Params[fInv]) },
+				isP: func(lk *ssa.Lookup, fr *bframe, s *boolSem) bool {
+					m, mfr := s.resolve(lk.X, fr, 0)
+					if mfr != nil || canon(m) != ssa.Value(fn.Params[fSet]) {
+						return false
+					}
+					k, kfr := s.resolve(lk.Index, fr, 0)
+					if kfr != nil {
+						return false
+					}
+					cc, _ := callOf(canon(k))
+					if cc == nil || calleeFunc(cc.Common()) == nil || calleeFunc(cc.Common()).Name() != "Cid" {
+						return false
+					}
+					return canon(stripIface(callArgs(cc.Common())[0])) == blk
+				},
+			}
+			inLoop := reach(fn, nexts[0].Block(), nil)
+			var gate []Edge
+			var others []string
+			for _, b := range fn.Blocks {
+				if !inLoop[b] || len(b.Instrs) == 0 {
+					continue
 				}
-				if canon(stripIface(callArgs(cc.Common())[0])) != blk {
-					return false
+				iff, ok := b.Instrs[len(b.Instrs)-1].(*ssa.If)
+				if !ok {
+					continue
 				}
-				if canon(cl.Call.Args[mSet]) != ssa.Value(fn.Params[fSet]) || canon(cl.Call.Args[mInv]) != ssa.Value(fn.Params[fInv]) {
-					return false
+				t, ok := sem.table(iff.Cond)
+				if !ok || (t[0] == t[2] && t[1] == t[3]) {
+					continue // not a function of the presence test
 				}
-				okc++
-				return true
-			}))
+				switch t {
+				case [4]bool{false, true, true, false}: // P xor I: the block is wanted
+					gate = append(gate, Edge{From: b, Succ: 0})
+				case [4]bool{true, false, false, true}: // the negation: the block is not wanted
+					gate = append(gate, Edge{From: b, Succ: 1})
+				default:
+					// a step on the way to the answer (`if ok { r = !invert } else { r = invert }`), or a wrong predicate
+					others = append(others, fmt.Sprintf("%s: (present,invert) -> %v", c.Pos(condPos(iff)), t))
+				}
+			}
 			switch {
 			case len(gate) == 0:
-				bad = "the Put is not decided by matchFilter(blk.Cid(), cidMap, invert) over the block just read"
+				bad = "the Put is not decided by a predicate over (blk.Cid() in cidMap, invert) for the block just read"
+				pbad = "no condition of the scan loop is `present != invert`"
+				if len(others) > 0 {
+					pbad += "; conditions over the presence test found: " + strings.Join(others, "; ") + " — wanted: present -> !invert, absent -> invert"
+				}
 			case reach(fn, nexts[0].Block(), edgeSet(gate))[puts[0].Block()]:
-				bad = "Put is reachable without the true outcome of matchFilter for this block"
+				bad = "Put is reachable without the true outcome of the filter predicate (present != invert) for this block: the selection is inverted or bypasses the predicate"
+				pbad = bad
 			case canon(stripIface(puts[0].Common().Args[len(puts[0].Common().Args)-1])) != blk:
 				bad = "the block that is put is not the block that was tested"
 			}
@@ -348,7 +343,8 @@ func ruleR19c(c *Ctx, r *Report) {
 				}
 			}
 		}
-		r.Check(bad == "", key, c.Pos(fn.Pos()), "Put exactly on matchFilter(blk.Cid(), cidMap, invert) == true, for the block read", bad)
+		r.Check(pbad == "", pkey, c.Pos(fn.Pos()), "present -> !invert, absent -> invert", pbad)
+		r.Check(bad == "", key, c.Pos(fn.Pos()), "Put exactly on (blk.Cid() in cidMap) != invert, for the block read", bad)
 	}
 	{
 		key := "filter-scan-to-eof@" + fnKey(fn)
@@ -379,12 +375,32 @@ func ruleR19c(c *Ctx, r *Report) {
 		key := "filter-roots@" + fnKey(fn)
 		n := 0
 		_, fSet, fInv := filterParams(fn)
-		for _, ci := range callsToFunc(fn, pkgCmdLib, "", "matchFilter") {
-			if fSet >= 0 && fInv >= 0 && mSet >= 0 && mInv >= 0 && canon(ci.Common().Args[mSet]) == ssa.Value(fn.Params[fSet]) && canon(ci.Common().Args[mInv]) == ssa.Value(fn.Params[fInv]) {
-				n++
+		if fSet >= 0 && fInv >= 0 && len(nexts) == 1 {
+			blk := extractOf(nexts[0].Value(), 0)
+			// the same predicate over (root in cidMap, invert), for a key that is not the scanned block
+			sem := &boolSem{
+				isI: func(v ssa.Value) bool { return canon(v) == ssa.Value(fn.Params[fInv]) },
+				isP: func(lk *ssa.Lookup, fr *bframe, s *boolSem) bool {
+					m, mfr := s.resolve(lk.X, fr, 0)
+					if mfr != nil || canon(m) != ssa.Value(fn.Params[fSet]) {
+						return false
+					}
+					k, kfr := s.resolve(lk.Index, fr, 0)
+					return kfr == nil && !flowSources(k)[blk]
+				},
+			}
+			for _, b := range fn.Blocks {
+				if len(b.Instrs) == 0 {
+					continue
+				}
+				if iff, ok := b.Instrs[len(b.Instrs)-1].(*ssa.If); ok {
+					if t, ok := sem.table(iff.Cond); ok && (t == [4]bool{false, true, true, false} || t == [4]bool{true, false, false, true}) {
+						n++
+					}
+				}
 			}
 		}
-		r.Check(n >= 2, key, c.Pos(fn.Pos()), "roots and blocks filtered by the same predicate and arguments", "roots are not filtered with matchFilter(_, cidMap, invert)")
+		r.Check(n >= 1, key, c.Pos(fn.Pos()), "roots and blocks filtered by the same predicate and arguments", "roots are not filtered with the predicate (root in cidMap) != invert")
 	}
 }
 
@@ -1011,4 +1027,136 @@ func ruleR19n(c *Ctx, r *Report) {
 		}
 	}
 	r.Check(bad == "", key, c.Pos(fn.Pos()), "no whole-CID comparison in verify", bad)
+}
+
+func ruleR19o(c *Ctx, r *Report) {
+	fn, err := c.Func(pkgCmdCar, "", "ListCar")
+	if err != nil {
+		r.InfraFail("%v", err)
+		return
+	}
+	key := "list-prints-every-section@" + fnKey(fn)
+	nexts := callsToFunc(fn, modV2, "BlockReader", "Next")
+	if len(nexts) != 1 {
+		r.Undec(key, c.Pos(fn.Pos()), "expected one BlockReader.Next")
+		return
+	}
+	okE := condEdges(fn, errNilCond(errOfCall(nexts[0]), true))
+	cut := EdgeSet{}
+	printBlocks := map[*ssa.BasicBlock]bool{}
+	eachInstr(fn, func(in ssa.Instruction) {
+		if ci, ok := in.(ssa.CallInstruction); ok {
+			if f := calleeFunc(ci.Common()); f != nil && f.Pkg() != nil && f.Pkg().Path() == "fmt" && strings.HasPrefix(f.Name(), "Fp") {
+				printBlocks[in.Block()] = true
+			}
+		}
+	})
+	for _, b := range fn.Blocks {
+		for i, sc := range b.Succs {
+			if printBlocks[sc] {
+				cut[Edge{From: b, Succ: i}] = true
+			}
+		}
+	}
+	bad := ""
+	if len(okE) == 0 {
+		bad = "the error of Next is not tested"
+	}
+	for _, e := range okE {
+		if printBlocks[e.From.Succs[e.Succ]] {
+			continue
+		}
+		if reachFromEdge(fn, e, cut)[nexts[0].Block()] {
+			bad = "after a section was read, the loop can go on to the next one without having printed anything: `car list` leaves out sections that a scan of the archive yields (repeated CIDs, for instance)"
+		}
+	}
+	r.Check(bad == "", key, c.Pos(nexts[0].Pos()), "every iteration prints before the next read", bad)
+}
+
+func ruleR19p(c *Ctx, r *Report) {
+	fn, err := c.Func(pkgCmdCar, "", "ConcatCar")
+	if err != nil {
+		r.InfraFail("%v", err)
+		return
+	}
+	key := "concat-copies-whole-payload@" + fnKey(fn)
+	n, bad := 0, ""
+	for _, g := range withAnon(fn) {
+		for _, ci := range callsToFunc(g, "io", "", "Copy") {
+			_ = ci
+			n++
+		}
+		for _, ci := range callsToFunc(g, "io", "", "CopyN") {
+			n++
+			// a length that was counted in a loop is a length found by looking at the bytes
+			for v := range flowSources(ci.Common().Args[2]) {
+				if ph, ok := v.(*ssa.Phi); ok {
+					for _, e := range ph.Edges {
+						if flowSources(e)[ph] {
+							bad = fmt.Sprintf("the number of payload bytes copied at %s is the result of a loop (a scan of the payload), not a length taken from the header or the file size", c.Pos(ci.Pos()))
+						}
+					}
+				}
+			}
+			for _, o := range origins(ci.Common().Args[2], originOpts{binops: true}) {
+				switch {
+				case o.Kind == "const":
+				case o.Kind == "field" && o.Field != nil && (o.Field.Name() == "DataSize" || o.Field.Name() == "DataOffset"):
+				case o.Kind == "call" && o.Fn != nil && (o.Fn.Name() == "Size" || o.Fn.Name() == "HeaderSize"):
+				default:
+					bad = fmt.Sprintf("the number of payload bytes copied at %s is computed from %s rather than taken from the header or the file size", c.Pos(ci.Pos()), o.Kind)
+				}
+			}
+		}
+	}
+	if n == 0 {
+		r.Undec(key, c.Pos(fn.Pos()), "no io.Copy / io.CopyN of the payload found")
+		return
+	}
+	r.Check(bad == "", key, c.Pos(fn.Pos()), "payloads copied to their end", bad)
+}
+
+// R19q: car create opens its destination with the placeholder root only.
+func ruleR19q(c *Ctx, r *Report) {
+	fn, err := c.Func(pkgCmdCar, "", "CreateCar")
+	if err != nil {
+		r.InfraFail("%v", err)
+		return
+	}
+	key := "create-starts-fresh@" + fnKey(fn)
+	n, bad := 0, ""
+	for _, g := range withAnon(fn) {
+		for _, ci := range callsToFunc(g, pkgBS, "", "OpenReadWrite") {
+			n++
+			for v := range flowSources(ci.Common().Args[1]) {
+				call, ok := v.(*ssa.Call)
+				if !ok {
+					continue
+				}
+				if f := calleeFunc(call.Common()); f != nil && f.Pkg() != nil && isRepoPkg(f.Pkg().Path()) {
+					bad = fmt.Sprintf("the roots handed to OpenReadWrite at %s come from %s: the destination is opened under roots read from a file, so an archive left by another run is resumed and its blocks end up in the output", c.Pos(ci.Pos()), funcKey(f))
+				}
+			}
+		}
+	}
+	if n == 0 {
+		r.Undec(key, c.Pos(fn.Pos()), "CreateCar no longer opens its destination through blockstore.OpenReadWrite")
+		return
+	}
+	r.Check(bad == "", key, c.Pos(fn.Pos()), "the destination is opened with the computed placeholder root", bad)
+}
+
+func condPos(iff *ssa.If) token.Pos {
+	if iff.Pos().IsValid() {
+		return iff.Pos()
+	}
+	if iff.Cond.Pos().IsValid() {
+		return iff.Cond.Pos()
+	}
+	for _, in := range iff.Block().Instrs {
+		if in.Pos().IsValid() {
+			return in.Pos()
+		}
+	}
+	return token.NoPos
 }
